@@ -395,18 +395,20 @@ func (it *Interp) execBlock(s *istate) []*istate {
 			if ia, ok := it.inputOf(x); ok {
 				s.env[x] = ia
 			} else if callee := staticCallee(&x.Call); callee != nil && it.depth < 3 && callee.Blocks != nil && it.wantInline(callee) {
-				tuples := it.evalCallAll(s, callee, x)
+				tuples, tmarks := it.evalCallMarks(s, callee, x)
 				switch len(tuples) {
 				case 0:
 					s.env[x] = AV{}
 				case 1:
 					s.env[x] = tuples[0]
+					s.marks |= tmarks[0]
 				default:
 					// the callee can return different results for these arguments: continue once per result
 					var out []*istate
-					for _, t := range tuples {
+					for ti, t := range tuples {
 						s2 := s.clone()
 						s2.env[x] = t
+						s2.marks |= tmarks[ti]
 						s2.idx = i + 1
 						out = append(out, s2)
 					}
@@ -499,6 +501,12 @@ func (it *Interp) wantInline(callee *ssa.Function) bool {
 // returns the distinct result tuples over all reachable returns (nil if the
 // callee could not be explored). A single-result callee yields plain values.
 func (it *Interp) evalCallAll(s *istate, callee *ssa.Function, call *ssa.Call) []AV {
+	rs, _ := it.evalCallMarks(s, callee, call)
+	return rs
+}
+
+// evalCallMarks is evalCallAll that also returns, per result, the pass-through marks set inside the callee.
+func (it *Interp) evalCallMarks(s *istate, callee *ssa.Function, call *ssa.Call) ([]AV, []uint32) {
 	args := map[ssa.Value]AV{}
 	for i, p := range callee.Params {
 		if i < len(call.Call.Args) {
@@ -507,6 +515,7 @@ func (it *Interp) evalCallAll(s *istate, callee *ssa.Function, call *ssa.Call) [
 	}
 	var results []AV
 	seen := map[string]bool{}
+	byKey := map[string]AV{}
 	sub := &Interp{
 		Fn: callee,
 		Input: func(v ssa.Value) (AV, bool) {
@@ -539,19 +548,37 @@ func (it *Interp) evalCallAll(s *istate, callee *ssa.Function, call *ssa.Call) [
 						res.T = append(res.T, ev(x))
 					}
 				}
-				if k := res.String(); !seen[k] {
+				k := res.String()
+				if !seen[k] {
 					seen[k] = true
-					results = append(results, res)
+					byKey[k] = res
 				}
+				return "r:" + k
 			}
 			return ""
 		},
+		Mark:      it.Mark,
 		MaxStates: 20000,
 	}
-	if !sub.Run() || len(results) == 0 || len(results) > 8 {
-		return nil
+	if !sub.Run() || len(byKey) == 0 {
+		return nil, nil
 	}
-	return results
+	var marks []uint32
+	var keys []string
+	for k := range byKey {
+		keys = append(keys, k)
+	}
+	sort.Strings(keys)
+	for _, k := range keys {
+		for m := range sub.Outcomes["r:"+k] {
+			results = append(results, byKey[k])
+			marks = append(marks, m)
+		}
+	}
+	if len(results) > 12 {
+		return nil, nil
+	}
+	return results, marks
 }
 
 // evalCall is evalCallAll joined to one value (Top unless all returns agree).
